@@ -4,6 +4,7 @@ Generates Python code for dataclasses from IRSchema objects.
 
 import json
 import logging
+import re
 from typing import List, Tuple
 
 from pyopenapi_gen import IRSchema
@@ -521,6 +522,20 @@ converter.register_unstructure_hook({class_name}, _unstructure_{class_name.lower
                         field_doc = f"Maps from '{prop_name}'"
 
                 fields_data.append((field_name, py_type, default_expr, field_doc))
+
+            # A field with a default is a class attribute while the class body runs. If its name is also used as a
+            # type or helper in this body (`date: date | None = None`, `field(...)`), that lookup would find the
+            # default instead, so such a field gets a trailing underscore (the Meta mapping keeps the API name).
+            used_names = set(re.findall(r"[A-Za-z_]\w*", " ".join(f"{t} {d or ''}" for _, t, d, _ in fields_data)))
+            for idx, (f_name, f_type, f_default, f_doc) in enumerate(fields_data):
+                if f_default is not None and f_name in used_names and f_name in seen_field_names:
+                    api_name = seen_field_names.pop(f_name)
+                    new_name = f_name + "_"
+                    while new_name in seen_field_names:
+                        new_name += "_"
+                    seen_field_names[new_name] = api_name
+                    field_mappings[api_name] = new_name
+                    fields_data[idx] = (new_name, f_type, f_default, f_doc or f"Maps from '{api_name}'")
 
         # logger.debug(
         #     f"DataclassGenerator: Preparing to render dataclass '{class_name}' with fields: {fields_data}."
